@@ -453,13 +453,14 @@ def run_job(job):
         try:
             evs, obs = to_events(sc, r["trace"])
         except MapError as e:
-            maperr.append(dict(scenario=r["scenario"], why=str(e), trace=r["trace"], choices=r["choices"]))
+            maperr.append(dict(scenario=r["scenario"], why=str(e), trace=r["trace"], choices=r["choices"],
+                               yield_at=job.get("yield_at", "before")))
             continue
         key = (strategy(sc), sc["n"], evs, tuple(obs[1]) if obs else None)
         d = distinct.get(key)
         if d is None:
             distinct[key] = dict(scenario=r["scenario"], trace=r["trace"] if len(distinct) < 40 else None,
-                                 choices=r["choices"], observed=obs, count=r["count"])
+                                 choices=r["choices"], observed=obs, count=r["count"], yield_at=job.get("yield_at", "before"))
         else:
             d["count"] += r["count"]
     return dict(job=dict(args=job["args"], harness=job["harness"]), heads=heads, fails=fails, maperr=maperr,
@@ -528,7 +529,7 @@ def plan(tier, seed, where, exes, harness, quick_exhaustive=QUICK_EXHAUSTIVE):
             fi = cfg.split("/")[1]
             if tier == "thorough" and shared:
                 # SharedFuture inputs add the shared state's own reference counting to every interleaving: capped
-                mode, args = "dfs-capped", ["--mode", "dfs", "--max", "100000"]
+                mode, args = "dfs-capped", ["--mode", "dfs", "--max", "40000"]
             elif tier == "thorough":
                 mode, args = "dfs", ["--mode", "dfs", "--max", "1500000"]
             elif fi in quick_exhaustive and arr != "q01":
@@ -543,8 +544,24 @@ def plan(tier, seed, where, exes, harness, quick_exhaustive=QUICK_EXHAUSTIVE):
         else:
             cnt = (400 if n == 3 else 150) if tier == "thorough" else (40 if n == 3 else 12)
             mode, args = "random", ["--mode", "random", "--max", str(cnt), "--seed", str(seed * 100000 + k * 97)]
-        jobs.append(dict(exe=exes[p], harness=harness, part=p, cfg=cfg, arr=arr, n=n, mode=mode,
-                         args=args + ["--only", only], names=names[(cfg, arr)], timeout=1700))
+        # Where the explorer offers a fiber switch (--yield-at, see .agents/YIELD_AT.md): `before` the wrapped operation is
+        # the classic pass; `after` stops a fiber right after its CAS / exchange / fetch_sub, before the plain code that
+        # follows (e.g. a plain store moved behind the publishing operation).  Unbounded DFS suites run once with each;
+        # random and small-preemption-bound suites (capped, fixed cost) offer the switch at both places; in the thorough
+        # tier the bounded/capped DFS suites also run once with each.
+        only_before = os.environ.get("VERIF_WHEN_YIELD") == "before"      # experiments: the pre-2026-09-26 plan
+        if only_before:
+            passes = ["before"]
+        elif mode == "random":
+            passes = ["both"]
+        elif mode == "dfs" or tier == "thorough":
+            passes = ["before", "after"]
+        else:
+            passes = ["both"]
+        for ya in passes:
+            jobs.append(dict(exe=exes[p], harness=harness, part=p, cfg=cfg, arr=arr, n=n,
+                             mode=mode if ya == "before" else mode + "@" + ya, yield_at=ya,
+                             args=args + ["--yield-at", ya, "--only", only], names=names[(cfg, arr)], timeout=1700))
     return jobs
 
 
@@ -595,8 +612,9 @@ def run_check(ck, pid, harness, nparts, props, quick_exhaustive=QUICK_EXHAUSTIVE
         for k, ((cfg, arr), p) in enumerate(sorted({(j["cfg"], j["arr"]): j["part"] for j in jobs}.items())):
             fa_jobs.append(dict(exe=fa[p], harness=harness, part=p, cfg=cfg, arr=arr, mode="asan-random",
                                 names=next((j["names"] for j in jobs if j["cfg"] == cfg and j["arr"] == arr), []),
+                                yield_at="both",
                                 args=["--mode", "random", "--max", "12", "--seed", str(ck.seed * 7919 + k),
-                                      "--only", "%s/%s/" % (cfg, arr)], timeout=1700))
+                                      "--yield-at", "both", "--only", "%s/%s/" % (cfg, arr)], timeout=1700))
         with concurrent.futures.ProcessPoolExecutor(max(2, (vlib.NPROC * 3) // 4)) as ex:
             fa_results = list(ex.map(run_job, fa_jobs, chunksize=1))
         asan = dict(scenarios=sum(len(r["heads"]) for r in fa_results),
@@ -616,24 +634,25 @@ def run_check(ck, pid, harness, nparts, props, quick_exhaustive=QUICK_EXHAUSTIVE
             m["executions"] += h["executions"]
             m["exhaustive"] += 1 if h["exhaustive"] else 0
     ck.cov["exploration"] = by_mode
-    dfs = by_mode.get("dfs", dict(scenarios=0, exhaustive=0))
-    ck.cov["exhaustive"] = dfs["scenarios"] > 0 and dfs["exhaustive"] == dfs["scenarios"]
+    dfs = [m for k, m in by_mode.items() if k in ("dfs", "dfs@after")]
+    ck.cov["exhaustive"] = bool(dfs) and all(m["scenarios"] > 0 and m["exhaustive"] == m["scenarios"] for m in dfs)
     for job, r in zip(jobs, results):
         config = "FA" if job["mode"].startswith("asan") else "F"
         if r["crash"]:
             ck.hits.append(dict(what="%s: harness crashed (rc=%s) %s" % (job["cfg"], r["crash"]["rc"], r["crash"]["text"][-600:]),
                                 key="crash:" + job["cfg"].split("/")[0],
                                 replay=dict(harness=harness, config=config, part=job["part"], args=job["args"],
-                                            scenario=r["crash"].get("scenario"), choices=r["crash"]["choices"])))
+                                            scenario=r["crash"].get("scenario"), choices=r["crash"]["choices"],
+                                            yield_at=job.get("yield_at", "before"))))
         for f in r["fails"]:
             sc = parse_name(f["scenario"])
             ck.hits.append(dict(what="%s: %s" % (f["scenario"], f["fail"]),
                                 key=sc["kind"] + ":" + re.sub(r"\d+", "N", f["fail"])[:48].replace(" ", "_"),
                                 replay=dict(harness=harness, config=config, part=job["part"], scenario=f["scenario"],
-                                            choices=f["choices"], trace=f["trace"])))
+                                            choices=f["choices"], trace=f["trace"], yield_at=job.get("yield_at", "before"))))
         for e in r["maperr"][:3]:
             ck.gen_obligation("correspondence When (trace vocabulary) on %s" % e["scenario"], False,
-                              "%s\ntrace: %s\nchoices: %s" % (e["why"], e["trace"], e["choices"]))
+                              "%s\ntrace: %s\nchoices: %s\nyield_at: %s" % (e["why"], e["trace"], e["choices"], e.get("yield_at")))
     # ---- correspondence: every distinct model-level trace replayed through the model
     merged = {}
     raw = 0
@@ -687,10 +706,13 @@ def run_check(ck, pid, harness, nparts, props, quick_exhaustive=QUICK_EXHAUSTIVE
                       "exhaustive DFS over every scheduling decision for n<=2 with one producer fiber completing the inputs in either order (q01,q10) "
                       "or two producer fibers after the builder (pp) [quick: Future inputs exhaustive, SharedFuture/mixed preemption-bounded]; "
                       "preemption-bounded DFS for two producers racing the builder (p); seeded random schedules for n=3,4; "
+                      "every unbounded DFS suite runs twice, with the fiber switch offered before and after each wrapped operation (--yield-at), "
+                      "random and bounded suites offer it at both places (thorough: bounded DFS also once with each); "
                       "each execution is mapped to events of When.v and deduplicated; distinct_model_traces counts distinct (strategy, n, event sequence, observed output); "
                       "non-trivial = the steps of two different inputs interleave (some input's registration/exchange/consume events are not contiguous)") % harness
     with_text = [k for k in keys if merged[k]["trace"] is not None]
     ck.cov["samples"] = [dict(scenario=merged[k]["scenario"], trace=merged[k]["trace"], choices=merged[k]["choices"],
+                              yield_at=merged[k].get("yield_at", "before"),
                               events=[render_coq(e) for e in k[2]], executions=merged[k]["count"])
                          for k in with_text[:2] + [k for k in with_text if interleaved(k[2])][:3]]
     ck.cov["wall_explore_s"] = round(t_explore, 1)
@@ -699,12 +721,13 @@ def run_check(ck, pid, harness, nparts, props, quick_exhaustive=QUICK_EXHAUSTIVE
         if trace is None:
             try:
                 rows, _o, _e, _rc = runner.run_harness(exes[where[d["scenario"]]],
-                                                       ["--mode", "replay", "--exact", d["scenario"], "--choices", d["choices"]])
+                                                       ["--mode", "replay", "--exact", d["scenario"], "--choices", d["choices"],
+                                                        "--yield-at", d.get("yield_at", "before")])
                 trace = next((r["trace"] for r in rows if "trace" in r), None)
             except Exception:
                 pass
         ck.broken.append(dict(name="correspondence When.run vs implementation on %s" % d["scenario"],
-                              detail="%s\ntrace: %s\nchoices: %s" % (why, trace, d["choices"])))
+                              detail="%s\ntrace: %s\nchoices: %s\nyield_at: %s" % (why, trace, d["choices"], d.get("yield_at", "before"))))
     if not keys:
         ck.broken.append(dict(name="correspondence When.run vs implementation", detail="the harness produced no traces"))
     return dict(exes=exes, jobs=jobs, results=results, merged=merged)
@@ -720,9 +743,10 @@ def replay_hit(ck, path, harness, nparts):
     part = rp.get("part", 0)
     exe, b = vlib.compile_harness(rp.get("config", "F"), [src], "%s_p%d" % (harness, part), extra=["-DWH_PART=%d" % part])
     if rp.get("scenario"):
-        args = ["--mode", "replay", "--exact", rp["scenario"], "--choices", rp.get("choices") or ""]
+        args = ["--mode", "replay", "--exact", rp["scenario"], "--choices", rp.get("choices") or "",
+                "--yield-at", rp.get("yield_at") or "before"]
     else:
-        args = rp["args"]
+        args = rp["args"]            # the whole invocation, its own --yield-at included
     rows, out, err, rc = runner.run_harness(exe, args)
     print(out[-4000:])
     if err:
